@@ -132,6 +132,62 @@ def _task_long(task):
     return t
 
 
+def _ops_for(L):
+    ps = sorted({0, 3, 8, 13, 16, L - 11, L - 8, L - 3, L} & set(range(L + 1)))
+    ns = [0, 1, 5, 8, 11, 16, 24, L]
+    return [(p, n, k) for p in ps for n in ns if p + n <= L for k in ("int", "bytes")]
+
+
+def _task_histories(task):
+    """Kernel E-hist: ONE object, every sequence of reads with the cursor set to an arbitrary position before each read (forwards and
+    backwards, first read anywhere in the buffer).  Each read must behave as on a fresh object: the object keeps nothing but the cursor."""
+    from space_packet_parser.packets import RawPacketData as RPD
+    import itertools
+    t = Tally()
+    with case_alarm(1800):
+        for length in task["lengths"]:
+            buf = bytes((i * 89 + 0x35) & 0xFF for i in range(length))
+            bits = _bits(buf)
+            L = 8 * length
+            ops = _ops_for(L)
+            states = set()
+            for first in task["firsts"]:
+                if first >= len(ops):
+                    continue
+                for rest in itertools.product(range(len(ops)), repeat=task["depth"] - 1):
+                    hist = (first,) + rest
+                    r = RPD(buf)
+                    # header properties are cached on first access: touch them at different points of the history
+                    touch_at = (first + sum(rest)) % (task["depth"] + 1)
+                    bad = None
+                    for step, oi in enumerate(hist):
+                        if step == touch_at and length >= 6:
+                            _ = r.header_values, r.apid
+                        pp, n, kind = ops[oi]
+                        r.pos = pp
+                        try:
+                            got = r.read_as_int(n) if kind == "int" else r.read_as_bytes(n)
+                        except Exception as e:  # noqa: BLE001
+                            got = f"raised:{type(e).__name__}"
+                        want_int = int(bits[pp:pp + n] or "0", 2)
+                        want = want_int if kind == "int" else want_int.to_bytes((n + 7) // 8, "big")
+                        t.evals += 1
+                        states.add((pp + n))
+                        if got != want or r.pos != pp + n or bytes(r) != buf:
+                            bad = (step, got)
+                            break
+                    t.traces += 1
+                    if bad:
+                        step, got = bad
+                        t.violation({"kind": "history-read-mismatch", "read": ops[hist[step]][2], "step": step},
+                                    {"buf": buf.hex(), "history": [list(ops[o]) for o in hist], "failing_step": step},
+                                    observed={"value": got.hex() if isinstance(got, bytes) else got, "pos_after": r.pos},
+                                    note="a read on a reused object differs from the same read on a fresh object")
+            t.nontrivial += 1
+            t.outcomes["history"] += 1
+    return t
+
+
 def run(ctx):
     import itertools
     bufs = [b""] + [bytes([a]) for a in range(256)]
@@ -151,13 +207,21 @@ def run(ctx):
     wtasks = [{"length": length, "ps": [p]} for length in ((3, 4) if ctx.quick else (3, 4, 5, 6)) for p in range(8 * length + 1)]
     tally.merge(fan_out(_task_walking, wtasks, jobs=ctx.jobs, seed=ctx.seed))
     tally.merge(fan_out(_task_long, [{"lengths": [64]}, {"lengths": [4096]}, {"lengths": [65542]}], jobs=3))
+    depth = 3
+    nops = len(_ops_for(64))
+    htasks = [{"lengths": [3, 8, 16] if ctx.quick else [3, 6, 8, 16, 32], "firsts": [f], "depth": depth} for f in range(nops)]
+    if not ctx.quick:
+        htasks += [{"lengths": [3], "firsts": [f], "depth": 4} for f in range(len(_ops_for(24)))]
+    tally.merge(fan_out(_task_histories, htasks, jobs=ctx.jobs, seed=ctx.seed))
     coverage = {
         "programs": len(bufs),
         "exhaustive": True,
         "bound": (f"(a) all buffers of 0 and 1 bytes and {two} x every (p, n), p+n <= 8*len, n=0 included, both reads; "
                   f"(b) buffers of 3..{max_len} and 16{'' if ctx.quick else ', 24'} bytes x every (p, n) x "
                   "{all-0, all-1, A5, 5A, index pattern, every filling of the 4+4 bits around each window edge over 0- and 1-background}; "
-                  "walking-1/walking-0 over every bit for lengths 3..%d; (c) aligned and unaligned reads on 64, 4096, 65542-byte buffers" % (4 if ctx.quick else 6)),
+                  "walking-1/walking-0 over every bit for lengths 3..%d; (c) aligned and unaligned reads on 64, 4096, 65542-byte buffers; "
+                  f"(d) histories on ONE object: every sequence of {depth} reads over an alphabet of (position, width, kind) with the cursor set freely before each read, "
+                  f"buffers of {'3, 8, 16' if ctx.quick else '3, 6, 8, 16, 32 bytes, and every sequence of 4 reads on 3'} bytes, cached header properties touched at varying points" % (4 if ctx.quick else 6)),
         "rule": ("one evaluation = one read (int or bytes) of one (buffer, p, n); distinct non-trivial = distinct small buffers fully "
                  "swept plus distinct (length, p, n) windows swept over the content family"),
     }
@@ -170,6 +234,21 @@ def replay(case):
     if isinstance(case["buf"], dict):
         return None
     buf = bytes.fromhex(case["buf"])
+    if "history" in case:
+        bits = _bits(buf)
+        r = RPD(buf)
+        for step, (pp, n, kind) in enumerate(case["history"]):
+            r.pos = pp
+            try:
+                got = r.read_as_int(n) if kind == "int" else r.read_as_bytes(n)
+            except Exception as e:  # noqa: BLE001
+                got = f"raised:{type(e).__name__}"
+            want_int = int(bits[pp:pp + n] or "0", 2)
+            want = want_int if kind == "int" else want_int.to_bytes((n + 7) // 8, "big")
+            if got != want or r.pos != pp + n or bytes(r) != buf:
+                return {"sig": {"kind": "history-read-mismatch", "read": kind, "step": step}, "case": case,
+                        "observed": {"value": got.hex() if isinstance(got, bytes) else got, "pos_after": r.pos}}
+        return None
     t = Tally()
     _check_read(t, RPD, buf, _bits(buf), case["pos"], case["nbits"])
     for v in t.violations:
@@ -179,6 +258,9 @@ def replay(case):
 
 
 def repro_py(case):
+    if "history" in case:
+        return (f"from space_packet_parser.packets import RawPacketData\nr = RawPacketData(bytes.fromhex({case['buf']!r}))\n"
+                f"for p, n, kind in {case['history']!r}:\n    r.pos = p\n    print(p, n, kind, r.read_as_int(n) if kind == 'int' else r.read_as_bytes(n), r.pos)\n")
     return f"""from space_packet_parser.packets import RawPacketData
 buf = bytes.fromhex({case['buf']!r}); p, n = {case['pos']}, {case['nbits']}
 bits = ''.join(format(b, '08b') for b in buf)
